@@ -225,6 +225,29 @@ def voronoi_active(X, norms, hausdorff, X_selected, selected_idx, n_selected, vl
     return dSL, np.where(dSL[vlocation] < hausdorff)[0]
 
 
+def voronoi_update_active_only(X, norms, hausdorff, hausdorff_at_select, vlocation, active, n_selected, last, full_fraction):
+    # equivalent spelling of voronoi_update: on the pruned arm only the recomputed (active) entries and the new
+    # centre can be lowered, so only those are compared and written
+    hausdorff_at_select[last] = hausdorff[last]
+    if len(active) / X.shape[0] > full_fraction:
+        new_dist = norms + norms[last] - 2 * (X[last] @ X.T)
+        updated = np.where(new_dist < hausdorff)[0]
+        hausdorff = np.minimum(hausdorff, new_dist)
+    else:
+        new_dist = hausdorff.copy()
+        new_dist[active] = norms[active] + norms[last] - 2 * (X[last] @ X[active].T)
+        new_dist[last] = 0
+        recomputed = new_dist[active]
+        closer = recomputed < hausdorff[active]
+        updated = active[closer]
+        hausdorff[updated] = recomputed[closer]
+        hausdorff[last] = np.minimum(hausdorff[last], new_dist[last])
+    if len(updated) > 0:
+        vlocation[updated] = n_selected
+    vlocation[last] = n_selected
+    return hausdorff_at_select, hausdorff, vlocation
+
+
 def voronoi_update(X, norms, hausdorff, hausdorff_at_select, vlocation, active, n_selected, last, full_fraction):
     # record the selection distance, compute distances to `last` either for all
     # points or only for the active ones (all others keep their current minimum),
